@@ -1,7 +1,9 @@
 package main
 
 import (
+	"fmt"
 	"go/token"
+	"strings"
 
 	"golang.org/x/tools/go/ssa"
 )
@@ -52,6 +54,12 @@ func infractionPairing(c *Ctx) {
 			c.Check(!bad, fk(f, "queued-implies-scheduled"), sq, "after the queued value is stored a nil return is reached only through AddToInfractionUpdateSchedule")
 		}
 	}
+	// "equal request" means equal in every parameter: the helpers compare all fields
+	for _, h := range []string{"pk.compareInfractionParameters", "pk.compareSlashJailParameters"} {
+		if f := c.Fn(h); f != nil {
+			c.ComparesAllFields(f, fk(f, "compares-every-field"))
+		}
+	}
 	if f := c.Fn("pk.Keeper.RemoveConsumerInfractionQueuedData"); f != nil {
 		has := ABool("HasQueuedInfractionParameters(id)", PCall("pk.Keeper.HasQueuedInfractionParameters", -1, nil, nil, PParam("consumerId")))
 		dq := c.one(f, false, "pk.Keeper.DeleteQueuedInfractionParameters")
@@ -65,6 +73,17 @@ func infractionPairing(c *Ctx) {
 		}
 	}
 	if f := c.Fn("pk.Keeper.GetConsumerInfractionUpdateTime"); f != nil {
+		// the whole schedule is searched (an entry may be older than the block time: more than the
+		// per-block limit due at once, or a deletion in the block in which it is due)
+		n := 0
+		for _, cl := range AllCalls(f, false) {
+			if k, ok := cl.(*ssa.Call); ok && isIteratorCtor(k) {
+				n++
+				okFull := strings.HasSuffix(calleeName(k), ".KVStorePrefixIterator") && isSchedulePrefixOnly(arg(k, 1))
+				c.Check(okFull, fk(f, "searches-whole-schedule"), k, "the lookup iterates the full schedule prefix (prefix iterator over the one-byte prefix); found "+shortName(calleeName(k))+"("+describe(arg(k, 1))+")")
+			}
+		}
+		c.Check(n == 1, fk(f, "searches-whole-schedule", "census"), f, fmt.Sprintf("%d iterators in the lookup", n))
 		// finds the id in the schedule and removes exactly that entry
 		if rm := c.one(f, false, "pk.Keeper.RemoveFromInfractionUpdateSchedule"); rm != nil {
 			ok := PParam("consumerId")(arg(rm, 1)) && PCall("pt.ParseTime", 0, nil)(arg(rm, 2))
@@ -182,4 +201,9 @@ func runC20(c *Ctx) {
 			c.Check(ok, fk(f, "discards-pending-change"), cl, "every successful deletion passes RemoveConsumerInfractionQueuedData(consumerId)")
 		}
 	}
+}
+
+// isSchedulePrefixOnly: []byte{InfractionScheduledTimeToConsumerIdsKeyPrefix()}.
+func isSchedulePrefixOnly(v ssa.Value) bool {
+	return PCall("pt.InfractionScheduledTimeToConsumerIdsKeyPrefix", -1, nil)(sliceLitElem(v))
 }
